@@ -95,6 +95,11 @@ def gen(ctx):
         add("kdf %s %d" % (chunks_str(r.split(z)), outlen), "kdf:" + cls)
         if outlen <= 256 or outlen == 8160:
             add("sm2kdf %s %d" % (hexs(z), outlen), "sm2kdf:" + cls)
+    # counter beyond one byte (block 256 and later): outputs longer than 255*32 bytes
+    for outlen in (8161, 8192, 8200, 16384) + ((70000,) if thorough else ()):
+        z = r.bytes(r.range(1, 40))
+        add("sm2kdf %s %d" % (hexs(z), outlen), "sm2kdf:counter>255")
+        add("kdf %s %d" % (chunks_str(r.split(z)), outlen), "kdf:counter>255")
     # --- PBKDF2 (iteration counts kept small on the model side; see DESIGN 2.1)
     for count in ([1, 2, 3, 10, 64] if not thorough else [1, 2, 3, 10, 64, 1000]):
         for outlen in (1, 31, 32, 33, 64, 70):
@@ -106,6 +111,12 @@ def gen(ctx):
             for il in (0, 1, 32, 100):
                 add("hkdfx %s %s %s" % (alg, hexs(r.bytes(sl)), hexs(r.bytes(il))),
                     "hkdfx:%s:salt%s:ikm%s" % (alg, "0" if sl == 0 else ("<=B" if sl <= 64 else ">B"), "0" if il == 0 else "n"))
+        # PRK length different from the digest size (generic interface only; sm3direct takes 32 bytes)
+        if alg != "sm3direct":
+            for pl in (1, 16, 31, 33, 48, 64, 65, 100):
+                for L in (1, 32, 33, 64, 100):
+                    add("hkdfe %s %s %s %d" % (alg, hexs(r.bytes(pl)), hexs(r.bytes(r.choice([0, 5]))), L),
+                        "hkdfe:%s:prk%s:%s" % (alg, "<h" if pl < 32 else (">B" if pl > 64 else ">h"), "L>h" if L > 32 else "L<=h"))
         for L in [0, 1, 31, 32, 33, 64, 65, 100, 8159, 8160, 8161, 9000]:
             prk = r.bytes(32)
             info = r.bytes(r.choice([0, 1, 10, 70]))
@@ -119,7 +130,7 @@ def run(ctx):
     if model is None:
         ctx.violation("correspondence:model-build", "extracted model does not build: " + log[-500:], {"kind": "correspondence", "log": log[-3000:]}, False)
         return finish(ctx)
-    variants = ["asan", "small"]   # default build and ENABLE_SMALL_FOOTPRINT; the model runs once
+    variants = ["asan", "small", "sse"]   # default, ENABLE_SMALL_FOOTPRINT, ENABLE_SM3_SSE (-mssse3); the model runs once
     cases = gen(ctx)
     mo = None
     for v in variants:
@@ -137,7 +148,7 @@ def finish(ctx):
         "SM3/SHA Spec = my transcription of GB/T 32905 / FIPS 180-4, pinned by the standards' vectors proved as Examples (vm_compute)",
         "sha384/sha512 streaming theorem carries the premise < 2^64 blocks (the C block counter is 64 bits)",
         "every Impl=Spec equality the driver relies on is a theorem of Props/Properties_C03.v, except HMAC over SHA-384/512 (generic hmac.c instance; run-time compared by the driver: MODEL-IMPL-SPEC-DIFFER would be reported)",
-        "SIMD variants (ENABLE_SM3_SSE etc.) are not built here",
+        "ENABLE_SM3_SSE (x86 SSSE3) is run as variant `sse`; ARM / AVX SM3 variants are not built here",
     ]
     return ctx.finish(level="proof",
                       rule="cases = corpus/boundary families (empty input, pad boundary, block boundary, exhaustive 2-way splits of 130 bytes, installed block counters up to 2^64-1, key lengths around B, output lengths 0..100/8160/8161) + random k-way chunkings; a cell = (op, algorithm, boundary class, ok|ERR); distinct_nontrivial = number of distinct cells on which impl and model agreed",
